@@ -58,7 +58,12 @@ ASSUMPTIONS = [
     "generated values stay below 2^22 in absolute value (exact in int32 and float32)",
     "class bodies list their dated formulas in ascending order of distinct start dates",
     "F20 (open): an annualised variable asked for a non-January month before its January value is known yields its "
-    "default; reported as KNOWN-FINDING when model and implementation agree on it",
+    "default; reported as KNOWN-FINDING when model and implementation agree on it.  The boundary is proved on the "
+    "model (props/C14.v): with max_spiral_loops = 1 (the default, and what the generator uses) the January request made "
+    "by the annualised formula is the variable's second frame and is cut - the answer is the default and nothing is "
+    "stored (annualised_machine_refuted_when_january_unknown); once January is in the cache every month of the year "
+    "answers it (annualised_machine_after_january_partial); with max_spiral_loops >= 2 the cut does not fire and the "
+    "month yields the January value (ex_loops2)",
 ]
 
 WINDOW = (1996, 30)
